@@ -1005,7 +1005,7 @@ func c09NonTrivial(c c09Case) bool {
 
 func TestVerifC09(t *testing.T) {
 	kit.Run(t, "C09", kit.Class[c09Case]{
-		Name: "orders-x-histories", Quick: 3000, Thorough: 250000,
+		Name: "orders-x-histories", Quick: 9000, Thorough: 250000,
 		Gen: c09Gen, Check: c09Check, NonTrivial: c09NonTrivial, MinNonTrivial: 1200,
 		Rule: "one projection of 1-4 fields over {.config,.name,.fullname,/a,/b,k1,k2} with first/alpha/num/fixed orders (optionally ParseWithUnit), " +
 			"a history of up to 160 results whose values come from small per-key pools (curated num spellings incl. SI/IEC suffixes, numerically equal spellings, NaN/nan, +-Inf, digit-free words; " +
